@@ -310,7 +310,7 @@ class Source:
         return res
 
 
-def splice_fn(src, name, impl_pat=None, contract="", loops=None, drop_pub=False):
+def splice_fn(src, name, impl_pat=None, contract="", loops=None, drop_pub=False, ret_name=None):
     """Return (text, meta): the function text with `contract` spliced between signature and body
     and loops[i] spliced before the `{` of the i-th loop.  Body bytes are unchanged."""
     info = src.find_fn(name, impl_pat)
@@ -326,6 +326,21 @@ def splice_fn(src, name, impl_pat=None, contract="", loops=None, drop_pub=False)
     for off, txt in pieces:
         new_body = new_body[:off] + "\n" + txt.strip() + "\n" + new_body[off:]
     sig_text = info["sig_text"]
+    if ret_name:
+        # name the return value: `-> T` becomes `-> (r: T)`; the arrow is the last `->` at paren depth 0
+        depth = 0
+        pos = -1
+        for i, ch in enumerate(sig_text):
+            if ch in "([":
+                depth += 1
+            elif ch in ")]":
+                depth -= 1
+            elif ch == "-" and sig_text[i:i + 2] == "->" and depth == 0:
+                pos = i
+        if pos < 0:
+            raise ExtractError("fn %s has no return type to name" % name)
+        ty = sig_text[pos + 2:].strip()
+        sig_text = sig_text[:pos] + "-> (" + ret_name + ": " + ty + ")"
     text = sig_text + "\n" + (contract.strip() + "\n" if contract.strip() else "") + new_body
     meta = dict(name=name, impl=impl_pat, file=src.path, lines=(info["start_line"], info["end_line"]),
                 n_loops=len(hdrs), body_len=len(body))
